@@ -19,6 +19,8 @@ DirListsSmall == {<<>>} \cup {<< <<h, P2>> >> : h \in Handles}
 Spellings == { [form |-> "none"], [form |-> "nonspecific"], [form |-> "verbatim", v |-> <<"t", "a", "g", ":", "v", ".", "o", "r", "g", ",", "2", "0", "0", "0", ":", "t">>],
                [form |-> "secondary", s |-> <<"s", "t", "r">>], [form |-> "named", h |-> <<"a">>, s |-> <<"t">>],
                [form |-> "named", h |-> <<"b">>, s |-> <<"x", "%", "2", "1", "y">>], [form |-> "primary", s |-> <<"l">>],
+               [form |-> "verbatim", v |-> <<"!", "l", "o", "c">>],                                  \* a verbatim LOCAL tag: not resolved through "%TAG !"
+               [form |-> "named", h |-> <<"a">>, s |-> <<"d", "%", "D", "0", "%", "9", "6", "%", "D", "F", "%", "B", "F", "%", "C", "2", "%", "8", "0", "%", "E", "0", "%", "A", "0", "%", "8", "0", "z">>],   \* lead bytes C2, D0, DF, E0
                [form |-> "named", h |-> <<"a">>, s |-> <<"c", "%", "C", "3", "%", "A", "9", "%", "E", "2", "%", "8", "2", "%", "A", "C", "%", "F", "0", "%", "9", "F", "%", "9", "8", "%", "8", "0">>] }
 Kinds == {"scalar", "seq", "map"}
 VARIABLES docs, keep, done
